@@ -754,7 +754,17 @@ pub fn near_collinear_strategy() -> proptest::strategy::BoxedStrategy<crate::pro
             v
         }
     };
-    (point(), point(), point(), 0.0f64..1.0, -3i64..=3, -3i64..=3, 0u8..4, any::<bool>(), any::<bool>())
+    // exact T-contacts with integer coordinates far beyond 2^25 (sums exact, products rounded): a + j*d lies exactly on
+    // a .. a + k*d, but a plain floating-point cross product does not see it
+    let big = || (-(1i64 << 28)..(1i64 << 28), -(1i64 << 28)..(1i64 << 28));
+    let bigt = (big(), (-(1i64 << 27)..(1i64 << 27), -(1i64 << 27)..(1i64 << 27)), 2i64..7, 1i64..7, big(), any::<bool>(), any::<bool>(), any::<bool>()).prop_map(|(a, d, k, j, c, end_on, sa, sb)| {
+        let j = 1 + (j - 1) % (k - 1);
+        let f = |p: (i64, i64)| (p.0 as f64, p.1 as f64);
+        let (b, q) = ((a.0 + k * d.0, a.1 + k * d.1), (a.0 + j * d.0, a.1 + j * d.1));
+        let s2 = if end_on { (f(c), f(q)) } else { (f(q), f(c)) };
+        SegPair { s1: (f(a), f(b)), s2, subj: (sa, sb), in_out: (false, false), f32: false, integer: false }
+    });
+    let near = (point(), point(), point(), 0.0f64..1.0, -3i64..=3, -3i64..=3, 0u8..4, any::<bool>(), any::<bool>())
         .prop_map(move |(a, b, c, t, u1, u2, kind, sa, sb)| {
             // q: a point (almost) on segment a-b
             let q = (nudge(a.0 + t * (b.0 - a.0), u1), nudge(a.1 + t * (b.1 - a.1), u2));
@@ -769,6 +779,14 @@ pub fn near_collinear_strategy() -> proptest::strategy::BoxedStrategy<crate::pro
                 _ => ((a, b), (c, q)),
             };
             SegPair { s1, s2, subj: (sa, sb), in_out: (false, false), f32: false, integer: false }
-        })
-        .boxed()
+        });
+    // exact T-contact with full mantissas: the segment -v .. v passes through the origin, the contact point is
+    // +-v * 2^-m (exactly on it), while the difference of contact point and endpoint is not representable
+    let orig = ((-1000.0f64..1000.0, -1000.0f64..1000.0), 1i32..6, any::<bool>(), point(), any::<bool>(), any::<bool>(), any::<bool>()).prop_map(|(v, m, neg, c, end_on, sa, sb)| {
+        let f = (2.0f64).powi(-m) * if neg { -1.0 } else { 1.0 };
+        let q = (v.0 * f, v.1 * f);
+        let s2 = if end_on { (c, q) } else { (q, c) };
+        SegPair { s1: ((-v.0, -v.1), v), s2, subj: (sa, sb), in_out: (false, false), f32: false, integer: false }
+    });
+    prop_oneof![3 => near, 2 => bigt, 2 => orig].boxed()
 }
